@@ -840,6 +840,22 @@ pub fn run_seq(base: Instant, v: &Variant, seq: &[Op], verbose: bool) -> Result<
                 break;
             }
         }
+        // settling tail: whatever is still owed (acknowledgements of FINs and resets, MAX_STREAMS)
+        // travels now, so that bookkeeping driven by late acknowledgements runs for every sequence;
+        // afterwards the count of sending streams is one of the values it can legitimately have
+        if viol.is_empty() {
+            for _ in 0..2 {
+                flush(&mut p, a);
+                flush(&mut p, b);
+            }
+            for node in [a, b] {
+                let (c, _) = conn_of(&mut p, node);
+                let n = c.verif_probe().streams.send_streams;
+                if n > 2 {
+                    viol.push(("send-streams-count".into(), format!("after {seq:?} and a settling tail node{node} counts {n} streams that may have unacknowledged data; at most two sending halves ever existed")));
+                }
+            }
+        }
         // end-of-run event-count invariants
         if m.fwd.s.finished_event > 1 || m.fwd.s.stopped_event > 1 {
             viol.push(("model-bug".into(), "model emitted an event twice".into()));
